@@ -167,7 +167,7 @@ def classify_reject(text, mode, rep, pt):
                 if pyref.is_node(e) and e["_t"] == "Starred" and e.get("_r") and e["_r"][0] <= off <= e["_r"][1]:
                     v = e["value"]
                     if v["_t"] in ("BoolOp", "Compare", "IfExp", "Lambda") or (v["_t"] == "UnaryOp" and v["op"] == "Not"):
-                        if b[e["_r"][0] + 1:v["_r"][0]].strip() == b"":
+                        if pyref.blank_or_comments(b[e["_r"][0] + 1:v["_r"][0]]):
                             return "subscript-starred-index-operand-above-bitwise-or-rejected"
     # ... the same inside an f-string replacement field (errors there are reported at the field, not at the token)
     if "FStringError(InvalidExpression" in err:
